@@ -154,7 +154,9 @@ def readers(tier):
               "c2": [S("add_sub", "s1"), O("get_state"), O("get_state")],
               "c3": [O("get_state"), O("get_state")]}]
     # the first action is answered Keep with a changed state: published like any other, nobody notified
+    # ... and the middleware's before_effect hook either continues or fails: a failed hook takes nothing back
     return _i("read", progs, {1: 1, 2: 0, 3: 0}, cap=2, subs={"s1": {"kind": "direct"}}, mws=("m1",),
+              mw_script={"m1": {"before_effect": {0: "*", 1: "*"}}}, mw_verdicts=("C", "E"),
               reducers=("r1", "r2"), red_script={"r1": {0: red("D"), 1: red("K")}, "r2": {0: red("D"), 1: red("K")}})
 
 
